@@ -194,6 +194,19 @@ def limit_family(col, _):
             if not np.all(np.abs(np.asarray(got[key]) - want[key]) <= 1e-9 * max(1.0, c) + 1e-9 * np.abs(want[key])):
                 col.violation("limit-family-wrong-" + key, {"abstract": {"K": [[1, 0]], "S_a": "I", "S_y": c},
                                                             "expected": want[key].tolist(), "observed": np.asarray(got[key]).tolist()})
+    # the over-determined family of OemProps!LimitFamilyOver: K = (1 1)^T, Sa = (1), Sy = c I
+    K2 = np.array([[1.0], [1.0]])
+    for c in (1.0, 1e-6, 1e-9, 1e-12, 1e-14):
+        d = 2.0 + c
+        want = {"S": np.array([[c / d]]), "G": np.array([[1.0 / d, 1.0 / d]]), "A": np.array([[2.0 / d]])}
+        Sy2 = np.eye(2) * c
+        got = {"S": error_covariance_matrix(K2, np.eye(1), Sy2), "G": retrieval_gain_matrix(K2, np.eye(1), Sy2),
+               "A": averaging_kernel_matrix(K2, np.eye(1), Sy2)}
+        col.count(3)
+        for key in want:
+            if not np.all(np.abs(np.asarray(got[key]) - want[key]) <= 1e-9 * np.abs(want[key])):
+                col.violation("limit-family-over-determined-wrong-" + key, {"abstract": {"K": [[1], [1]], "S_a": "I", "S_y": "%g I" % c},
+                                                                            "expected": want[key].tolist(), "observed": np.asarray(got[key]).tolist()})
     col.nontrivial.add("limit-family")
 
 
@@ -213,7 +226,7 @@ def run(ctx):
             sample = 0 if n * m <= 2 else (12 if quick else (0 if n * m <= 4 else 150))
             with open(os.path.join(d, "MCOem.cfg"), "w") as f:
                 f.write("CONSTANTS N = %d M = %d NSample = %d\nINIT Init\nNEXT Next\nINVARIANT Identities\nINVARIANT Spectrum\n"
-                        "INVARIANT ScaleLaw\nINVARIANT BlockLaw\nINVARIANT LimitFamily\nINVARIANT Emit\n" % (n, m, sample))
+                        "INVARIANT ScaleLaw\nINVARIANT BlockLaw\nINVARIANT LimitFamily\nINVARIANT LimitFamilyOver\nINVARIANT Emit\n" % (n, m, sample))
             res = ctx.tlc(d, "OemProps", "MCOem.cfg", workers=8, seed=ctx.seed, timeout=2400)
             got = list(res.tagged("CASE"))
             if len(got) != res.distinct:          # PrintT lines of parallel workers must not have been torn
